@@ -70,7 +70,20 @@ class Highlighter(object):
     def highlighted_lines(self, source):
         source = source.replace("\r\n", "\n").replace("\r", "\n")
 
-        return self.split_to_lines(source)
+        try:
+            return self.split_to_lines(source)
+        except (tokenize.TokenError, SyntaxError):
+            # Not (complete) Python code, e.g. the file of a template that
+            # was compiled under its own name: shown without highlighting
+            lines = []
+            for line in source.split("\n"):
+                line = line.replace("<", "\\<")
+                if line.endswith("\\"):
+                    line += " "
+
+                lines.append(line)
+
+            return lines
 
     def split_to_lines(self, source):
         lines = []
